@@ -44,7 +44,7 @@ theorem liftF_fcOf_none (pol : Nat) (recC : Store → Except Err Store) (v : NVa
     liftF (fcOf pol recC) v = none := by
   unfold liftF fcOf
   unfold nestedOf at h
-  by_cases hc : v.hasContent = true
+  by_cases hc : (v.hasContent && !hasBit v.attrs aExtHdr) = true
   · simp only [hc, if_true, Bool.true_and] at h ⊢
     by_cases h4 : ((content v).take 4 == sig) = true
     · simp only [h4, if_true] at h ⊢
@@ -60,7 +60,7 @@ theorem liftF_fcOf_some (pol : Nat) (recC : Store → Except Err Store) (v : NVa
     liftF (fcOf pol recC) v = some r.buf := by
   unfold liftF fcOf
   unfold nestedOf at h
-  by_cases hc : v.hasContent = true
+  by_cases hc : (v.hasContent && !hasBit v.attrs aExtHdr) = true
   · simp only [hc, if_true, Bool.true_and] at h ⊢
     by_cases h4 : ((content v).take 4 == sig) = true
     · simp only [h4, if_true] at h ⊢
@@ -143,12 +143,21 @@ def SubOk (d : Nat) (S : NStore) : Prop :=
 theorem value_rowval (S : NStore) (hl : LevelOk S) (d : Nat) (hsub : SubOk d S) (v : NValue) (x : Option Ext)
     (hv : valueOk S.pol x v = true) (hn : ∀ n, v = .store n → n ∈ S.subs) :
     (cval v).bytes.length = v.bytes.length ∧
-    ((fcOf S.pol (compact S.pol d) (v.bytes ++ extSer x) = none ∧ (cval v).bytes = v.bytes) ∨
-     (fcOf S.pol (compact S.pol d) (v.bytes ++ extSer x) = some (cval v).bytes ∧ x = none)) := by
+    ((fcx (fcOf S.pol (compact S.pol d)) x (v.bytes ++ extSer x) = none ∧ (cval v).bytes = v.bytes) ∨
+     (fcx (fcOf S.pol (compact S.pol d)) x (v.bytes ++ extSer x) = some (cval v).bytes ∧ x = none)) := by
   cases v with
   | raw b =>
     simp only [valueOk, Bool.or_eq_true, bne_iff_ne, ne_eq] at hv
     refine ⟨rfl, Or.inl ⟨?_, rfl⟩⟩
+    unfold fcx
+    by_cases hxs : x.isSome = true
+    · simp [hxs]
+    simp only [hxs, if_false]
+    have hv : ((NValue.raw b).bytes ++ extSer x).take 4 ≠ sig ∨ notStore S.pol (b ++ extSer x) = true := by
+      rcases hv with (hv | hv) | hv
+      · exact Or.inl hv
+      · exact absurd hv hxs
+      · exact Or.inr hv
     unfold fcOf
     rcases hv with hv | hv
     · have : ((NValue.raw b).bytes ++ extSer x).take 4 ≠ sig := hv
@@ -161,7 +170,7 @@ theorem value_rowval (S : NStore) (hl : LevelOk S) (d : Nat) (hsub : SubOk d S) 
       · cases hv
       · rename_i e he
         rw [he]
-        split <;> rfl
+        simp
   | store n =>
     simp only [valueOk, Bool.and_eq_true, Option.isNone_iff_eq_none, beq_iff_eq] at hv
     obtain ⟨hx, hpol⟩ := hv
@@ -172,7 +181,7 @@ theorem value_rowval (S : NStore) (hl : LevelOk S) (d : Nat) (hsub : SubOk d S) 
     have hb : (NValue.store n).bytes = n.ser := rfl
     have hcb : (cval (NValue.store n)).bytes = (compactN0 n).ser := rfl
     rw [hb, hcb]
-    simp only [extSer, List.append_nil]
+    simp only [extSer, List.append_nil, fcx, Option.isSome_none, Bool.false_eq_true, if_false]
     refine ⟨hlen, ?_⟩
     have hfp : n.flat.pol = S.pol := by rw [flat_pol]; exact hpol
     have hpp : S.pol = 0xFF ∨ S.pol = 0 := by rw [← hfp]; exact hparts.pol
@@ -422,7 +431,7 @@ theorem compactN_main : ∀ (d : Nat) (K : Bytes → Bool) (S : NStore), WFCN S 
       simp only [expectStore, htabc, htabC, hCG, hCP]
       have hpc : (compactG K S.flat).pol = S.pol := hfp
       rw [hpc, hCE, hcE]
-      exact (rels_expect _ S.pol _ _ _ hrels 0).symm
+      exact (rels_expect _ S.pol _ _ _ hrels _ (by rw [← hcE]; exact hcparts.ok) 0).symm
     rw [hents, ← hCP]
     exact layout_expect (compactN K S).flat hpartsC _ hCG.symm (by
       simp only [invalK, expectStore]
